@@ -403,4 +403,202 @@ theorem parseMembers_rt (pv : Bytes → Res (V × Bytes)) (sp : Bytes) (hsp : ws
         rw [skipWs_ws sp _ hsp, skipWs_nonws]; decide
       simp [parseMembers, hs1, hstr, hs2, hx, hs3, ih', valueKV]
 
+
+/-! ### objects: duplicate-free keys -/
+
+theorem hasKey_valueKV (a : Bytes) (kvs : List (Bytes × J)) :
+    hasKey (.str a) (valueKV kvs) = (keysOfJ kvs).contains a := by
+  induction kvs with
+  | nil => simp [valueKV, hasKey, keysOfJ]
+  | cons p r ih =>
+    obtain ⟨k, x⟩ := p
+    by_cases hak : a = k <;> simp [valueKV, hasKey, keysOfJ, ih, hak]
+
+theorem lastWins_valueKV (kvs : List (Bytes × J)) (h : nodupB (keysOfJ kvs) = true) :
+    lastWins (valueKV kvs) = valueKV kvs := by
+  induction kvs with
+  | nil => simp [valueKV, lastWins]
+  | cons p r ih =>
+    obtain ⟨k, x⟩ := p
+    simp only [keysOfJ, nodupB, Bool.and_eq_true, Bool.not_eq_true'] at h
+    have hk : ¬ k ∈ keysOfJ r := by simpa using h.1
+    simp [valueKV, lastWins, hasKey_valueKV, hk, ih h.2]
+
+/-! ### the main induction -/
+
+theorem encodeL_shape (sp : Bytes) (x : J) (xs : List J) : ∃ tail, encodeL sp (x :: xs) = sp ++ (encode sp x ++ tail) := by
+  cases xs with
+  | nil => exact ⟨sp ++ [0x5d], by simp [encodeL]⟩
+  | cons y ys => exact ⟨sp ++ 0x2c :: encodeL sp (y :: ys), by simp [encodeL]⟩
+
+theorem encodeKV_shape (sp : Bytes) (p : Bytes × J) (kvs : List (Bytes × J)) :
+    ∃ tail, encodeKV sp (p :: kvs) = sp ++ 0x22 :: tail := by
+  obtain ⟨k, x⟩ := p
+  cases kvs with
+  | nil => exact ⟨_, by simp [encodeKV, encStr]; rfl⟩
+  | cons q qs => exact ⟨_, by simp [encodeKV, encStr]; rfl⟩
+
+theorem mem_length_encodeL (sp : Bytes) (xs : List J) (y : J) (hy : y ∈ xs) :
+    (encode sp y).length < (encodeL sp xs).length := by
+  induction xs with
+  | nil => simp at hy
+  | cons x xs ih =>
+    simp at hy
+    cases xs with
+    | nil =>
+      rcases hy with rfl | hy
+      · simp [encodeL]; omega
+      · simp at hy
+    | cons z zs =>
+      rcases hy with rfl | hy
+      · simp [encodeL]; omega
+      · have := ih (by simpa using hy); simp only [encodeL, List.length_append, List.length_cons] at this ⊢; omega
+
+theorem mem_length_encodeKV (sp : Bytes) (kvs : List (Bytes × J)) (p : Bytes × J) (hp : p ∈ kvs) :
+    (encode sp p.2).length < (encodeKV sp kvs).length := by
+  induction kvs with
+  | nil => simp at hp
+  | cons q qs ih =>
+    obtain ⟨k, x⟩ := q
+    simp at hp
+    cases qs with
+    | nil =>
+      rcases hp with rfl | hp
+      · simp [encodeKV]; omega
+      · simp at hp
+    | cons z zs =>
+      rcases hp with rfl | hp
+      · simp [encodeKV]; omega
+      · have := ih (by simpa using hp); simp only [encodeKV, List.length_append, List.length_cons] at this ⊢; omega
+
+theorem length_le_encodeL (sp : Bytes) (xs : List J) : xs.length ≤ (encodeL sp xs).length := by
+  induction xs with
+  | nil => simp [encodeL]
+  | cons x xs ih =>
+    cases xs with
+    | nil => simp [encodeL]; omega
+    | cons y ys => simp only [encodeL, List.length_append, List.length_cons] at ih ⊢; omega
+
+theorem length_le_encodeKV (sp : Bytes) (kvs : List (Bytes × J)) : kvs.length ≤ (encodeKV sp kvs).length := by
+  induction kvs with
+  | nil => simp [encodeKV]
+  | cons p kvs ih =>
+    obtain ⟨k, x⟩ := p
+    cases kvs with
+    | nil => simp [encodeKV]; omega
+    | cons y ys => simp only [encodeKV, List.length_append, List.length_cons] at ih ⊢; omega
+
+theorem digit_not_struct (c : UInt8) (h : Json.isDigit c = true) :
+    c ≠ 0x6e ∧ c ≠ 0x74 ∧ c ≠ 0x66 ∧ c ≠ 0x22 ∧ c ≠ 0x5b ∧ c ≠ 0x7b := by
+  have h' := (Proofs.C16.Bencode.isDigit_iff c).mp h
+  refine ⟨?_, ?_, ?_, ?_, ?_, ?_⟩ <;> (intro hc; subst hc; simp at h')
+
+theorem rt_step (sp : Bytes) (hsp : wsOk sp = true) (f : Nat)
+    (ih : ∀ y, valid y = true → (encode sp y).length < f → ElemOK (parseValue f) sp y)
+    (x : J) (hv : valid x = true) (hl : (encode sp x).length < f + 1) : ElemOK (parseValue (f + 1)) sp x := by
+  intro pre r hpre hr
+  rw [List.append_assoc]
+  cases x with
+  | null =>
+    have hsk : skipWs (pre ++ (encode sp .null ++ r)) = 0x6e :: ([0x75, 0x6c, 0x6c] ++ r) := by
+      simp only [encode, List.append_assoc, List.cons_append, List.nil_append]
+      exact skipWs_starter pre _ _ hpre (by decide)
+    simp [parseValue, hsk, lit, expectLit_hit, value]
+  | bool b =>
+    cases b
+    · have hsk : skipWs (pre ++ (encode sp (.bool false) ++ r)) = 0x66 :: ([0x61, 0x6c, 0x73, 0x65] ++ r) := by
+        simp only [encode, List.append_assoc, List.cons_append, List.nil_append]
+        exact skipWs_starter pre _ _ hpre (by decide)
+      simp [parseValue, hsk, lit, expectLit_hit, value]
+    · have hsk : skipWs (pre ++ (encode sp (.bool true) ++ r)) = 0x74 :: ([0x72, 0x75, 0x65] ++ r) := by
+        simp only [encode, List.append_assoc, List.cons_append, List.nil_append]
+        exact skipWs_starter pre _ _ hpre (by decide)
+      simp [parseValue, hsk, lit, expectLit_hit, value]
+  | int i =>
+    have hnum := parseNumber_rt i r hr.numFollow
+    by_cases hneg : i < 0
+    · have henc : encInt i = 0x2d :: Bencode.decStr (-i).toNat := by simp [encInt, hneg]
+      have hsk : skipWs (pre ++ (encode sp (.int i) ++ r)) = 0x2d :: (Bencode.decStr (-i).toNat ++ r) := by
+        simp only [encode, henc, List.append_assoc, List.cons_append]
+        exact skipWs_starter pre _ _ hpre (by decide)
+      rw [henc] at hnum
+      simp only [List.cons_append] at hnum
+      simp [parseValue, hsk, hnum, value]
+    · obtain ⟨d, ds, hds, hst, hdig⟩ := decStr_starter i.toNat
+      have henc : encInt i = d :: ds := by simp [encInt, hneg, hds]
+      have hsk : skipWs (pre ++ (encode sp (.int i) ++ r)) = d :: (ds ++ r) := by
+        simp only [encode, henc, List.append_assoc, List.cons_append]
+        exact skipWs_starter pre _ _ hpre hst.1
+      rw [henc] at hnum
+      simp only [List.cons_append] at hnum
+      have ⟨h1, h2, h3, h4, h5, h6⟩ := digit_not_struct d hdig
+      simp [parseValue, hsk, hnum, value, h1, h2, h3, h4, h5, h6, hdig]
+  | str s =>
+    simp only [valid] at hv
+    have hsk : skipWs (pre ++ (encode sp (.str s) ++ r)) = 0x22 :: (encStrBody s ++ 0x22 :: r) := by
+      simp only [encode, encStr, List.append_assoc, List.cons_append, List.nil_append]
+      exact skipWs_starter pre _ _ hpre (by decide)
+    simp [parseValue, hsk, parseStr_rt s r hv, value]
+  | arr xs =>
+    cases xs with
+    | nil =>
+      have hsk : skipWs (pre ++ (encode sp (.arr []) ++ r)) = 0x5b :: (sp ++ 0x5d :: r) := by
+        simp only [encode, List.append_assoc, List.cons_append, List.nil_append]
+        exact skipWs_starter pre _ _ hpre (by decide)
+      have hsk2 : skipWs (sp ++ 0x5d :: r) = 0x5d :: r := skipWs_starter sp _ _ hsp (by decide)
+      simp [parseValue, hsk, hsk2, value, valueL]
+    | cons y ys =>
+      simp only [valid] at hv
+      have hmem := validL_mem hv
+      obtain ⟨tail, htail⟩ := encodeL_shape sp y ys
+      obtain ⟨c, t, hct, hst⟩ := encode_starter sp y
+      have hsk : skipWs (pre ++ (encode sp (.arr (y :: ys)) ++ r)) = 0x5b :: (encodeL sp (y :: ys) ++ r) := by
+        simp only [encode, List.append_assoc, List.cons_append]
+        exact skipWs_starter pre _ _ hpre (by decide)
+      have hsk2 : skipWs (encodeL sp (y :: ys) ++ r) = c :: (t ++ (tail ++ r)) := by
+        rw [htail, hct]
+        simp only [List.append_assoc, List.cons_append]
+        exact skipWs_starter sp _ _ hsp hst.1
+      have hl' : (encodeL sp (y :: ys)).length < f := by
+        simp only [encode, List.length_cons] at hl; omega
+      have hel := parseElems_rt (parseValue f) sp hsp y ys r ((encodeL sp (y :: ys) ++ r).length + 1)
+        (fun z hz => ih z (hmem z hz) (by have := mem_length_encodeL sp (y :: ys) z hz; omega))
+        (by have := length_le_encodeL sp (y :: ys); simp at this ⊢; omega)
+      rw [← parseElems_skip, hsk2] at hel
+      simp only [parseValue, hsk, hsk2]
+      simp [hst.2.1, hel, value]
+  | obj kvs =>
+    cases kvs with
+    | nil =>
+      have hsk : skipWs (pre ++ (encode sp (.obj []) ++ r)) = 0x7b :: (sp ++ 0x7d :: r) := by
+        simp only [encode, List.append_assoc, List.cons_append, List.nil_append]
+        exact skipWs_starter pre _ _ hpre (by decide)
+      have hsk2 : skipWs (sp ++ 0x7d :: r) = 0x7d :: r := skipWs_starter sp _ _ hsp (by decide)
+      simp [parseValue, hsk, hsk2, value, valueKV]
+    | cons p ps =>
+      simp only [valid, Bool.and_eq_true] at hv
+      have hmem := validKV_mem hv.1
+      obtain ⟨tail, htail⟩ := encodeKV_shape sp p ps
+      have hsk : skipWs (pre ++ (encode sp (.obj (p :: ps)) ++ r)) = 0x7b :: (encodeKV sp (p :: ps) ++ r) := by
+        simp only [encode, List.append_assoc, List.cons_append]
+        exact skipWs_starter pre _ _ hpre (by decide)
+      have hsk2 : skipWs (encodeKV sp (p :: ps) ++ r) = 0x22 :: (tail ++ r) := by
+        rw [htail]
+        simp only [List.append_assoc, List.cons_append]
+        exact skipWs_starter sp _ _ hsp (by decide)
+      have hl' : (encodeKV sp (p :: ps)).length < f := by
+        simp only [encode, List.length_cons] at hl; omega
+      have hel := parseMembers_rt (parseValue f) sp hsp p ps r ((encodeKV sp (p :: ps) ++ r).length + 1)
+        (fun z hz => ⟨(hmem z hz).1, ih z.2 (hmem z hz).2 (by have := mem_length_encodeKV sp (p :: ps) z hz; omega)⟩)
+        (by have := length_le_encodeKV sp (p :: ps); simp at this ⊢; omega)
+      rw [← parseMembers_skip, hsk2] at hel
+      simp only [parseValue, hsk, hsk2]
+      simp [hel, value, lastWins_valueKV (p :: ps) hv.2]
+
+theorem main (sp : Bytes) (hsp : wsOk sp = true) (f : Nat) :
+    ∀ x, valid x = true → (encode sp x).length < f → ElemOK (parseValue f) sp x := by
+  induction f with
+  | zero => intro x _ h; omega
+  | succ f ih => exact fun x hv hl => rt_step sp hsp f ih x hv hl
+
 end Proofs.C16.Json
